@@ -86,9 +86,12 @@ class FakeSelector:
 
     def register(self, fd, events):
         self.fd = fd
+        self.events = events
 
     def select(self, timeout=None):
         dt = getattr(self.fd, "_pending", None)
+        if not (self.events & getattr(self.fd, "_pending_dir", 3)):
+            dt = None  # waiting for the wrong direction: the awaited event never shows
         if dt is None:
             if timeout is None:
                 raise ScriptExhausted()
@@ -144,17 +147,21 @@ class UdpSock:
         self.sent = []
         self._pending = None
 
-    def sendto(self, data, dest):
+    def sendto(self, data, dest, _via_send=False):
+        if dest is None and not _via_send:
+            raise TypeError("sendto() needs an address")  # as a real socket: send() is the call for a connected socket
         if self.send_blocks:
             self._pending = self.send_blocks.pop(0)
+            self._pending_dir = 2
             raise BlockingIOError()
         self.sent.append((bytes(data), dest))
         return len(data)
 
     def send(self, data):
-        return self.sendto(data, None)
+        return self.sendto(data, None, True)
 
     def recvfrom(self, size):
+        self._pending_dir = 1
         if not self.events:
             self._pending = None
             raise BlockingIOError()
@@ -222,6 +229,7 @@ class TcpSock:
         self._pending = None
 
     def send(self, data):
+        self._pending_dir = 2
         if not self.sevents:
             self._pending = None
             raise BlockingIOError()
@@ -234,6 +242,7 @@ class TcpSock:
         return k
 
     def recv(self, count):
+        self._pending_dir = 1
         if not self.revents:
             self._pending = None
             raise BlockingIOError()
@@ -358,13 +367,34 @@ def enc_wire_name(labels):
 
 
 def enc_question(qe):
-    labels, cls, typ = qe
-    return enc_wire_name([bytes.fromhex(x) for x in labels]) + typ.to_bytes(2, "big") + cls.to_bytes(2, "big")
+    """[labels, class, type] or [labels, class, type, ptr]: with ptr the name is written as a compression pointer to that
+    offset (the labels say what it decodes to; 0x3FFF = a pointer that does not point backwards)"""
+    labels, cls, typ = qe[:3]
+    if len(qe) > 3 and qe[3] is not None:
+        name = bytes([0xC0 | (qe[3] >> 8), qe[3] & 0xFF])
+    else:
+        name = enc_wire_name([bytes.fromhex(x) for x in labels])
+    return name + typ.to_bytes(2, "big") + cls.to_bytes(2, "big")
 
 
 def marker_rr(i):
     return b"\x01m\x00" + (1).to_bytes(2, "big") + (1).to_bytes(2, "big") + (60).to_bytes(4, "big") + (4).to_bytes(2, "big") + bytes(
         [10, (i >> 16) & 255, (i >> 8) & 255, i & 255])
+
+
+def dup_rr():
+    return b"\x01m\x00" + (1).to_bytes(2, "big") + (1).to_bytes(2, "big") + (60).to_bytes(4, "big") + (4).to_bytes(2, "big") + bytes([10, 255, 255, 255])
+
+
+def pad_rr(n):
+    """a TXT record with n octets of rdata (character-strings of up to 255 octets)"""
+    rd = b""
+    left = n
+    while left > 0:
+        k = min(255, left - 1)
+        rd += bytes([k]) + b"x" * k
+        left -= k + 1
+    return b"\x01p\x00" + (16).to_bytes(2, "big") + (1).to_bytes(2, "big") + (60).to_bytes(4, "big") + len(rd).to_bytes(2, "big") + rd
 
 
 def opt_rr(ednsflags):
@@ -385,6 +415,10 @@ def build_dgram(d):
         return bytes.fromhex(d["raw"])
     qs = d["questions"]
     an = [marker_rr(d["marker"])] if d.get("marker") is not None else []
+    if an and d.get("dup"):
+        an.append(dup_rr())
+    if an and d.get("pad"):
+        an.append(pad_rr(d["pad"]))
     ad = []
     if d.get("edns") is not None:
         ad.append(opt_rr(d["edns"]))
@@ -415,10 +449,17 @@ def summarise(d):
     """what the parser finds in build_dgram(d), from the description alone:
     ("S",) | ("B", id, flags, edns, questions, formErr) | ("F", id, flags, edns, questions, trailing)"""
     assert d.get("raw") is None
-    qs = [list(q) for q in d["questions"]]
+    qs = [list(q[:3]) for q in d["questions"]]
     opcode = (d["flags"] >> 11) & 0xF
     cut = d.get("cut")
     nq = len(qs) if not (cut and cut[0] == "q") else cut[1]
+    for k, q in enumerate(d["questions"][:nq]):
+        if len(q) > 3 and q[3] == 0x3FFF:
+            # BadPointer while reading question k
+            part = qs[:k]
+            if opcode == 5:
+                part = part[:1] if (part and part[0][1] not in (254, 255) and part[0][2] == 6) else []
+            return ("B", d["id"], d["flags"], 0, part, True)
     parsed = []
     if opcode == 5:
         # UpdateMessage._parse_rr_header, zone section: one SOA of a data class, else FormError
@@ -445,12 +486,13 @@ def p_qs(questions):
 
 
 def p_body(s):
-    """what the reader finds after the header: <Q>~<ednsflags>~<n|0|1 broken>~<trailing>"""
+    """what the reader finds after the question section: <ednsflags>~<n|0|1 broken>~<trailing>
+    (header and question section are read by the model from the octets)"""
     if s[0] == "S":
-        return "-~0~n~0"
+        return "0~n~0"
     if s[0] == "B":
-        return f"{p_qs(s[4])}~{s[3]}~{1 if s[5] else 0}~0"
-    return f"{p_qs(s[4])}~{s[3]}~n~{1 if s[5] else 0}"
+        return f"{s[3]}~{1 if s[5] else 0}~0"
+    return f"{s[3]}~n~{1 if s[5] else 0}"
 
 
 def p_wire(s, wire_hex):
@@ -788,6 +830,7 @@ def eval_udp(ctx: Ctx, c: dict):
             got = list(r.answer[0])[0].address if hasattr(list(r.answer[0])[0], "address") else None
             if got != f"10.{(mk >> 16) & 255}.{(mk >> 8) & 255}.{mk & 255}":
                 ctx.fail(f"C18/{tag}{api}/returned/not-the-delivered-datagram", "returned message carries another datagram's marker", rep)
+            check_sections(ctx, f"{tag}{api}", last["d"], r, o["one"], rep)
     else:
         fam = out[1]
         p = facts(last) if last is not None else None
@@ -821,6 +864,22 @@ def eval_udp(ctx: Ctx, c: dict):
                 bad = "truncation-not-reported"
         if bad:
             ctx.fail(f"C18/{tag}{api}/raised/{fam}/{bad}", f"exchange raised {fam} at datagram {n}: {bad}", rep)
+
+
+def check_sections(ctx, where, d, r, one, rep):
+    """the returned message is the whole datagram, parsed as configured (one_rr_per_rrset honoured, nothing cut off)"""
+    if d.get("cut") or d.get("raw") is not None or d.get("marker") is None:
+        return
+    if d.get("dup"):
+        want = 2 if (one or (d["flags"] >> 11) & 0xF == 5) else 1  # an UPDATE message is always read one RR per RRset
+        got = sum(1 for rr in r.answer if rr.rdtype == 1)
+        if got != want:
+            ctx.fail(f"C18/{where}/option/one_rr_per_rrset-not-honoured", f"{got} A rrsets in the answer section, one_rr_per_rrset={one}", rep)
+    if d.get("pad"):
+        txt = [rr for rr in r.answer if rr.rdtype == 16]
+        n = sum(sum(len(x) + 1 for x in rd.strings) for rr in txt for rd in rr)
+        if n != d["pad"]:
+            ctx.fail(f"C18/{where}/returned/message-cut-short", f"the {d['pad']}-octet TXT record of the reply arrived as {n} octets", rep)
 
 
 def eval_fromwire(ctx, e, o, c):
@@ -918,13 +977,13 @@ def eval_stream(ctx: Ctx, c: dict):
             elif k == "areadexactly":
                 out = ("ok", run_coro(dns.asyncquery._read_exactly(sock, c["count"], exp)))
             elif k == "asendtcp":
-                nb, _t = run_coro(dns.asyncquery.send_tcp(sock, bytes.fromhex(c["data"]), exp))
+                nb, _t = run_coro(dns.asyncquery.send_tcp(sock, build_query(c["msg"]) if "msg" in c else bytes.fromhex(c["data"]), exp))
                 out = ("ok", nb)
             elif k == "netwrite":
                 dns.query._net_write(sock, bytes.fromhex(c["data"]), exp)
                 out = ("ok", None)
             elif k == "sendtcp":
-                nb, _t = dns.query.send_tcp(sock, bytes.fromhex(c["data"]), exp)
+                nb, _t = dns.query.send_tcp(sock, build_query(c["msg"]) if "msg" in c else bytes.fromhex(c["data"]), exp)
                 out = ("ok", nb)
             elif k == "recvtcp":
                 out = ("ok", dns.query.receive_tcp(sock, exp, c["one"], None, b"", c["it"]))
@@ -965,7 +1024,7 @@ def eval_stream(ctx: Ctx, c: dict):
             ctx.fail(f"C18/{fn}/short-stream/wrong-error/{fam}", f"stream ends by {why}, raised {fam}", rep)
         return
     if k in ("netwrite", "sendtcp", "asendtcp"):
-        data = bytes.fromhex(c["data"])
+        data = build_query(c["msg"]).to_wire() if "msg" in c else bytes.fromhex(c["data"])
         full = data if k == "netwrite" else len(data).to_bytes(2, "big") + data
         impl = f"sent={hx(sock.sent)} ok t={clock.now}" if out[0] == "ok" else f"sent={hx(sock.sent)} err {fam}"
         ctx.corr(f"c18.{k} {hx(data)} {p_opt(c['timeout'])} {c['now']} {blocks if k == 'asendtcp' else sevs}".rstrip(), impl, c)
@@ -1061,6 +1120,8 @@ def oracle_frame(ctx, k, c, rep, out, fam, buf, why, sums, qd, sock):
             ctx.fail(f"C18/{tag}{k}/returned/malformed", "a malformed framed message was returned", rep)
         elif qd is not None and not ref_is_response(qd, s):
             ctx.fail(f"C18/{tag}{k}/returned/not-a-response", "returned a message that is not a response to the query", rep)
+        elif not malformed and c.get("frames", {}).get(frame.hex()) is not None:
+            check_sections(ctx, f"{tag}{k}", c["frames"][frame.hex()], m, c.get("one", c.get("opts", {}).get("one", False)), rep)
         # framing consumed exactly the frame
         all_stream = b"".join(bytes.fromhex(e[1]) for e in c["revents"] if e[0] == "D")
         if all_stream[2 + l:] != sock.stream_rest():
@@ -1248,9 +1309,62 @@ def eval_fallback(ctx: Ctx, c: dict):
     oracle_frame(ctx, "afallback" if is_async else "fallback", cc, rep, tout, out[1] if out[0] == "err" else "ok", buf, why, sums, qd, ts)
 
 
+def eval_sendudp(ctx: Ctx, c: dict):
+    """send_udp (sync / async): the datagram handed to the socket is the message's wire, once, to the destination"""
+    k = c["kind"]
+    is_async = k == "asendudp"
+    rep = {"kind": k, "case": c}
+    clock = Clock(c["now"])
+    exp = None if c["timeout"] is None else c["now"] + c["timeout"]
+    q = build_query(c["msg"])
+    wire = q.to_wire()
+    what = q if c.get("as_message") else wire
+    dest = c.get("dest")
+    sent = []
+
+    class ASock(AsyncUdpSock):
+        async def sendto(self, data, destination, timeout):
+            n = await AsyncUdpSock.sendto(self, data, destination, timeout)
+            sent.append((bytes(data), destination))
+            return n
+
+    sock = (ASock if is_async else UdpSock)(clock, AF4, [], c.get("send_blocks", []))
+    with patched(clock):
+        try:
+            if is_async:
+                n, t = run_coro(dns.asyncquery.send_udp(sock, what, None if dest is None else addr_tuple(dest), exp))
+            else:
+                n, t = dns.query.send_udp(sock, what, None if dest is None else addr_tuple(dest), exp)
+                sent = sock.sent
+            out = ("ok", n)
+        except BaseException as e:
+            out = ("err", family_of(e))
+            if not is_async:
+                sent = sock.sent
+    ctx.count(f"{k}." + (out[1] if out[0] == "err" else "ok"))
+    blocks = c.get("send_blocks", [])
+    t, tripped = c["now"], False
+    for dt in blocks:
+        if exp is not None and (exp <= t or dt >= exp - t):
+            tripped = True
+            break
+        t += dt
+    want_dest = None if dest is None else addr_tuple(dest)
+    if out[0] == "ok":
+        if tripped:
+            ctx.fail(f"C18/{k}/deadline/expired-deadline-not-an-error", "a send wait reached the deadline, yet send_udp succeeded", rep)
+        if sent != [(wire, want_dest)] or out[1] != len(wire):
+            ctx.fail(f"C18/{k}/datagram-differs", f"socket was given {[(x.hex(), d) for x, d in sent]}, wire is {wire.hex()} to {want_dest}", rep)
+    else:
+        if out[1] not in ("Timeout", "Exhausted") or (out[1] == "Timeout" and not tripped) or sent:
+            ctx.fail(f"C18/{k}/raised/{out[1]}", f"send_udp raised {out[1]} (deadline reached: {tripped})", rep)
+
+
 def eval_case(ctx: Ctx, c: dict):
     k = c["kind"]
-    if k in ("fallback", "afallback"):
+    if k in ("sendudp", "asendudp"):
+        eval_sendudp(ctx, c)
+    elif k in ("fallback", "afallback"):
         eval_fallback(ctx, c)
     elif k == "udp":
         eval_udp(ctx, c)
@@ -1412,7 +1526,7 @@ def gen_ddesc(rng, qd, idx):
     nm = rng.choice([0, 0, 0, 1, 1, 1, 2])
     muts = []
     for _ in range(nm):
-        m = rng.below(22)
+        m = rng.below(27)
         muts.append(m)
         if m == 0:
             d["id"] = (d["id"] + rng.choice([1, 65535, 256, 0x8000])) % 65536
@@ -1464,6 +1578,21 @@ def gen_ddesc(rng, qd, idx):
             d["questions"] = list(reversed(d["questions"]))
         elif m == 21:
             d["flags"] ^= rng.choice([0x0400, 0x0020, 0x0040, 0x0100])
+        elif m == 22:
+            # an rcode outside the four that may come without a question, and no question
+            d["flags"] = (d["flags"] & ~0xF) | rng.choice([0, 3, 6, 7, 8, 9, 10, 15])
+            d["questions"] = []
+        elif m == 23:
+            d["dup"] = True
+        elif m == 24:
+            d["pad"] = rng.choice([300, 500, 513, 1400, 1500, 4000])
+        elif m == 25 and d["questions"]:
+            # a further question whose name is a compression pointer to the first one's (same name, other type)
+            d["questions"].append([list(d["questions"][0][0]), d["questions"][0][1], rng.choice([1, 28, d["questions"][0][2]]), 12])
+        elif m == 26 and d["questions"]:
+            q = rng.choice(d["questions"])
+            if len(q) == 3:
+                q.append(0x3FFF)  # a pointer that does not point backwards
     cut = d.get("cut")
     if cut and cut[0] == "q" and (cut[1] >= len(d["questions"]) or cut[2] >= len(enc_question(d["questions"][cut[1]]))):
         d.pop("cut")
@@ -1517,6 +1646,8 @@ def gen_udp_case(rng, counter, api=None):
         c["pass_query"] = rng.chance(3, 4)
         r = rng.below(12)
         c["dest"] = None if r < 2 else (gen_bad_addr(rng, fam, dest["rest"]) if r == 2 else dest)
+    if rng.chance(1, 12):
+        c["now"], c["timeout"] = 0, 0  # the deadline is the falsy value 0
     events = []
     idx = 0
     for _ in range(rng.choice([0, 1, 1, 2, 2, 3, 4, 6])):
@@ -1537,6 +1668,10 @@ def gen_udp_case(rng, counter, api=None):
         if fam == 6:
             src = gen_addr(rng, 6, dest["bin"], port)
             src["rest"] = list(dest["rest"])
+        if d["marker"] is not None and rng.chance(1, 5):
+            d["dup"] = True
+        if d["marker"] is not None and rng.chance(1, 8):
+            d["pad"] = rng.choice([300, 513, 1500, 4000])
         events.append({"t": "D", "src": src, "d": d})
     c["events"] = events
     return c
@@ -1616,6 +1751,8 @@ def gen_stream_case(rng, kind=None):
         kind = rng.choice(["netread"] * 3 + ["netwrite"] * 2 + ["sendtcp"] + ["recvtcp"] * 3 + ["tcp"] * 5 + ["arecvtcp"] * 2 + ["atcp"] * 3
                           + ["areadexactly"] * 2 + ["asendtcp"])
     c = {"kind": kind, "timeout": None if rng.chance(1, 2) else rng.range(0, 14), "now": rng.choice([0, 7, 1000000])}
+    if rng.chance(1, 12):
+        c["now"], c["timeout"] = 0, 0  # the deadline is the falsy value 0
     if kind in ("netread", "areadexactly"):
         s = rng.bytes(rng.choice([0, 1, 2, 3, 5, 8, 13, 40]))
         c["count"] = rng.choice([0, 1, 2, len(s), max(0, len(s) - 1), len(s) + 1, rng.below(len(s) + 2)])
@@ -1624,6 +1761,11 @@ def gen_stream_case(rng, kind=None):
     if kind in ("netwrite", "sendtcp", "asendtcp"):
         data = rng.bytes(rng.choice([0, 1, 2, 3, 12, 29, 40, 300]))
         c["data"] = data.hex()
+        if kind != "netwrite" and rng.chance(1, 2):
+            # the documented other argument type: a Message, framed by to_wire(prepend_length=True)
+            c["msg"] = gen_qdesc(rng)
+            data = build_query(c["msg"]).to_wire()
+            c["data"] = data.hex()
         if kind == "asendtcp":
             c["sevents"] = [["W", rng.below(6)] for _ in range(rng.choice([0, 0, 1, 2]))]
         else:
@@ -1718,6 +1860,45 @@ def gen_fallback_case(rng, counter):
     return c
 
 
+def gen_sendudp_case(rng):
+    kind = "asendudp" if rng.chance(1, 3) else "sendudp"
+    c = {"kind": kind, "msg": gen_qdesc(rng), "as_message": rng.chance(1, 2), "timeout": None if rng.chance(1, 2) else rng.range(0, 8),
+         "now": rng.choice([0, 100]), "send_blocks": [] if rng.chance(1, 2) else [rng.below(6) for _ in range(rng.range(1, 2))],
+         "dest": None if (kind == "sendudp" and rng.chance(1, 4)) else gen_addr(rng, 4)}
+    return c
+
+
+def big_frame_cases(rng, n):
+    """framed messages of 0x7fff .. 0xffff octets (the length prefix is an *unsigned* 16-bit number), through every stream entry point"""
+    out = []
+    sizes = [0x7FFF, 0x8000, 0x8001, 0xFFFF, 0xC000, 0x80FF, 0xFF00]
+    for i in range(n):
+        qd = gen_qdesc(rng)
+        qd["questions"] = [[["61", ""], 1, 1]] if (qd["flags"] >> 11) & 0xF != 5 else [[["61", ""], 1, 6]]
+        d = {"id": qd["id"], "flags": 0x8000 | (qd["flags"] & 0x7900), "questions": qd["questions"], "marker": 3}
+        base = len(build_dgram(d))
+        size = sizes[i % len(sizes)]
+        # the pad RR costs 13 octets of header (owner 2 + type/class/ttl/rdlen 10 ... ) plus its rdata
+        d["pad"] = size - base - len(pad_rr(0))
+        frame = build_dgram(d)
+        assert len(frame) == size, (len(frame), size)
+        stream = len(frame).to_bytes(2, "big") + frame + (b"\x00\x01" if i % 2 else b"")
+        cuts = sorted({1, 2 + rng.below(size), 2 + size - 1}) if i % 3 else []
+        kind = ["recvtcp", "tcp", "arecvtcp", "atcp", "fallback"][i % 5]
+        c = {"kind": kind, "timeout": rng.choice([None, 50]), "now": 0, "one": False, "it": False, "frames": {frame.hex(): d},
+             "revents": split_stream(rng, stream, cuts, (1, 3))}
+        if kind in ("tcp", "atcp"):
+            c["q"] = qd
+            c["sevents"] = [["A", 1000]] if kind == "tcp" else []
+        if kind == "fallback":
+            dest = gen_addr(rng, 4, "0a000001", 53)
+            td = {"id": qd["id"], "flags": 0x8200 | (qd["flags"] & 0x7900), "questions": qd["questions"], "marker": 0}
+            c.update({"q": qd, "where": dest, "af": AF4, "opts": {"iu": False, "one": False, "it": False, "rt": True, "ie": False},
+                      "send_blocks": [], "events": [{"t": "D", "src": dict(dest), "d": td}], "sevents": [["A", 1000]]})
+        out.append(c)
+    return out
+
+
 def gen_pton_case(rng):
     fam = 4 if rng.chance(1, 3) else 6
     af = AF4 if fam == 4 else AF6
@@ -1803,6 +1984,10 @@ def generate(ctx: Ctx, scale: int, rng, counter0=0):
         c = gen_udp_case(rng, counter0 + i)
         ctx.case(("udp", json.dumps(c, sort_keys=True)), sample=c)
         eval_case(ctx, c)
+    for i in range(n(600)):
+        c = gen_sendudp_case(rng)
+        ctx.case((c["kind"], json.dumps(c, sort_keys=True)), sample=c)
+        eval_case(ctx, c)
     for i in range(n(3000)):
         c = gen_fallback_case(rng, counter0 + i)
         ctx.case((c["kind"], json.dumps(c, sort_keys=True)), sample=c)
@@ -1821,6 +2006,10 @@ def run(ctx: Ctx):
         eval_case(ctx, c)
         ctx.count("corpus")
     thorough = ctx.tier == "thorough"
+    for c in big_frame_cases(ctx.rng, 35 if thorough else 10):
+        ctx.case((c["kind"], "big", len(next(iter(c["frames"]))) // 2), sample=None)
+        eval_case(ctx, c)
+        ctx.count("bigframe")
     for c in cut_cases(ctx.rng, 10 if thorough else 2, 40 if thorough else 22, pairs=True):
         ctx.case((c["kind"], json.dumps(c, sort_keys=True)), sample=None)
         eval_case(ctx, c)
@@ -1835,6 +2024,8 @@ def search(ctx: Ctx):
     for m in ctx.mismatches[:50]:
         if m.case is not None:
             eval_case(ctx, m.case)
+    for c in big_frame_cases(ctx.rng.fork(5), 14):
+        eval_case(ctx, c)
     for c in cut_cases(ctx.rng.fork(3), 4, 30, pairs=True):
         eval_case(ctx, c)
     generate(ctx, 3 if ctx.tier == "quick" else 20, ctx.rng.fork(7), counter0=5)
